@@ -165,12 +165,13 @@ fn run_case(workers: usize, shard: usize, kind: Kind, nb: Neighbours) -> CaseRes
             }
         }
         Kind::Trickle => {
+            let mut trickled: Vec<Vec<u8>> = Vec::new();
             for i in 0..5 {
                 let k = &key_of[shard][i];
                 st.insert(k, b"trickle").unwrap();
                 if i < 3 {
                     // accepted at least two rounds before the judgement below
-                    expect_present.push((k.clone(), b"trickle".to_vec()));
+                    trickled.push(k.clone());
                 }
                 if let Err(e) = one_round(&sut) {
                     res.problems.push(format!("C19: {kind:?} on shard {shard} of {workers}: {e}"));
@@ -191,8 +192,14 @@ fn run_case(workers: usize, shard: usize, kind: Kind, nb: Neighbours) -> CaseRes
             match Sut::open_existing(one, f.path(), s2) {
                 Err(e) => res.problems.push(format!("C19: {kind:?}: the synced image does not reopen: {e:?}")),
                 Ok(mut r) => {
-                    for (i, (k, v)) in expect_present.iter().enumerate() {
+                    for (k, v) in expect_present.iter() {
                         if r.store().get(k).ok().as_ref() != Some(v) {
+                            res.problems.push(format!("C19: {kind:?} on shard {shard} of {workers}: neighbour key {} is not on the device after five coordinator rounds", show(k)));
+                            break;
+                        }
+                    }
+                    for (i, k) in trickled.iter().enumerate() {
+                        if r.store().get(k).ok().as_deref() != Some(b"trickle".as_slice()) {
                             res.problems.push(format!(
                                 "C19: {kind:?} on shard {shard} of {workers}: write {} of a trickle (one write into the shard before every coordinator round) is not on the device {} rounds after it was accepted",
                                 i + 1,
